@@ -544,6 +544,9 @@ def default_value(it, ty):
         return Agg('Vec', [])
     if b == 'Vec':
         return Agg('Vec', [])
+    m = re.match(r'^\[(u8|u16|u32|u64); (\d+)\]$', ty)
+    if m:
+        return Agg('array', [bv(0, int(m.group(1)[1:]))] * int(m.group(2)))
     raise Unsupported('default value of ' + ty)
 
 
@@ -882,3 +885,24 @@ def _mem_swap(it, st, args, ctx):
     it.store(st, args[0], b)
     it.store(st, args[1], a)
     return UNIT
+
+
+# ---- process-wide state behind Lazy / Mutex / RwLock: the wrappers are transparent, the contents are an arbitrary input ----
+
+@summary(r'^<(once_cell::sync::|once_cell::unsync::|std::sync::)?(Lazy|LazyLock|LazyCell)<.*> as (std::ops::)?Deref>::deref$|'
+         r'^(once_cell::sync::|std::sync::)?(Lazy|LazyLock)::<.*>::force$')
+def _lazy_deref(it, st, args, ctx):
+    return args[0]
+
+
+@summary(r'^(parking_lot::)?(lock_api::)?(Mutex|RwLock)::<.*>::(lock|read|write|upgradable_read)$')
+def _mutex_lock(it, st, args, ctx):
+    """parking_lot: the guard is a handle on the protected value (single-threaded exploration: no contention, no poisoning)"""
+    return args[0]
+
+
+@summary(r'^<(parking_lot::)?(lock_api::)?(MutexGuard|RwLockReadGuard|RwLockWriteGuard|MappedMutexGuard)<.*> as (std::ops::)?Deref(Mut)?>::deref(_mut)?$')
+def _guard_deref(it, st, args, ctx):
+    g = args[0]
+    v = it.load(st, g) if isinstance(g, Ptr) else g
+    return v if isinstance(v, Ptr) else g
